@@ -30,8 +30,11 @@ CaseFuel(i)   == Cases[i].fuel
 
 FullG == [i \in 1..NumCases |-> Full(Cases[i].g)]
 RedG  == [i \in 1..NumCases |-> Reduced(Cases[i].g)]
-AmbG  == [i \in 1..NumCases |-> IF Cases[i].conflicts = <<>> /\ Cases[i].namb >= 0
-                                 THEN Ambiguous(Cases[i].g, Cases[i].namb) ELSE FALSE]
+AmbG  == [i \in 1..NumCases |->
+             IF Cases[i].conflicts = <<>> /\ Cases[i].namb >= 0
+             THEN \E u \in StringsUpTo(ToSet(Cases[i].terms), Cases[i].namb) :
+                     DerivesP(FullG[i], u) /\ AmbiguousSentence(Cases[i].g, u)
+             ELSE FALSE]
 
 ConflictFree == Cases[gi].conflicts = <<>>
 
